@@ -16,7 +16,7 @@
 (* including the reachable `assert not elem.children`), `Closure` is the      *)
 (* declarative least fixed point.  `ClosureAgrees` says they coincide.       *)
 (***************************************************************************)
-EXTENDS Integers, FiniteSets, Sequences, SequencesExt, TLC
+EXTENDS Integers, FiniteSets, FiniteSetsExt, Sequences, SequencesExt, TLC
 
 CONSTANTS Nt,        \* number of root time slabs
           Nx,        \* number of root space intervals
@@ -42,6 +42,7 @@ CT == 0 - CTn
 CS == 0 - CSn
 
 Rng(s)  == {s[k] : k \in DOMAIN s}
+SubsetsUpTo(S, k) == UNION {kSubset(i, S) : i \in 0..(IF k < Cardinality(S) THEN k ELSE Cardinality(S))}
 Leaves    == Rng(order)
 Lvl(e, ax) == IF ax = 0 THEN e.lt ELSE e.lx
 Ht(e) == e.t1 - e.t0
@@ -105,21 +106,26 @@ Closure(S, M, ax) ==
 (* Code-shaped closure: Mesh.refine_axis.  A recursion state is [ord, ok].   *)
 RemoveElt(s, e) == SelectSeq(s, LAMBDA x : x # e)
 
+\* TLC passes operator arguments and LET definitions by name; a recursion that threads a state
+\* through would re-evaluate it at every use (exponential).  Let(v, Op) evaluates v once and
+\* applies Op to the value (variables bound by a set constructor hold values).
+Let(v, Op(_)) == CHOOSE r \in {Op(x) : x \in {v}} : TRUE
+
 RECURSIVE RefAx(_, _, _), EdgeLoop(_, _, _, _), NbrLoop(_, _, _, _)
-RefAx(st, e, ax) ==
+RefAx(st0, e, ax) == Let(st0, LAMBDA st :
   IF ~st.ok THEN st
   ELSE IF e \notin Rng(st.ord) THEN [st EXCEPT !.ok = FALSE]     \* assert not elem.children (mesh.py:261)
-  ELSE LET st1 == EdgeLoop(st, e, ax, 1) IN
+  ELSE Let(EdgeLoop(st, e, ax, 1), LAMBDA st1 :
        IF ~st1.ok THEN st1
        ELSE IF e \notin Rng(st1.ord) THEN [st1 EXCEPT !.ok = FALSE]
-       ELSE [st1 EXCEPT !.ord = RemoveElt(st1.ord, e) \o ChildSeq(e, ax)]
-EdgeLoop(st, e, ax, k) ==
+       ELSE [st1 EXCEPT !.ord = RemoveElt(st1.ord, e) \o ChildSeq(e, ax)]))
+EdgeLoop(st0, e, ax, k) == Let(st0, LAMBDA st :
   IF k > 4 \/ ~st.ok THEN st
-  ELSE EdgeLoop(NbrLoop(st, e, ax, NbrList(Rng(st.ord), e, k)), e, ax, k + 1)
-NbrLoop(st, e, ax, list) ==
+  ELSE EdgeLoop(NbrLoop(st, e, ax, NbrList(Rng(st.ord), e, k)), e, ax, k + 1))
+NbrLoop(st0, e, ax, list) == Let(st0, LAMBDA st :
   IF list = <<>> \/ ~st.ok THEN st
   ELSE LET f == Head(list) IN
-       NbrLoop(IF Lvl(f, ax) < Lvl(e, ax) THEN RefAx(st, f, ax) ELSE st, e, ax, Tail(list))
+       NbrLoop(IF Lvl(f, ax) < Lvl(e, ax) THEN RefAx(st, f, ax) ELSE st, e, ax, Tail(list)))
 
 St0 == [ord |-> order, ok |-> TRUE]
 
@@ -132,8 +138,8 @@ Expand == Cardinality(Leaves) <= Nt * Nx + Budget
 \* loops); `strict` models an `assert not elem.children` in front of the call; without it the
 \* call itself fails on a non-leaf
 RECURSIVE RefList(_, _, _)
-RefList(st, list, ax) ==
-  IF list = <<>> \/ ~st.ok THEN st ELSE RefList(RefAx(st, Head(list), ax), Tail(list), ax)
+RefList(st0, list, ax) == Let(st0, LAMBDA st :
+  IF list = <<>> \/ ~st.ok THEN st ELSE RefList(RefAx(st, Head(list), ax), Tail(list), ax))
 
 \* Python's stable sort by level
 \* (SortSeq of the standard module is not guaranteed stable; build a stable one explicitly)
@@ -146,10 +152,11 @@ Stable(s, ax) == ByLevel(s, ax, 0)
 (* Actions: one per public mutating call *)
 Init == order = RootSeq /\ err = "none" /\ last = [op |-> "init"]
 
-Finish(st, opname, rec) ==
-  /\ order' = st.ord
-  /\ err' = (IF st.ok THEN err ELSE opname)
-  /\ last' = rec
+Finish(st0, opname, rec) ==
+  \E st \in {st0} :
+     /\ order' = st.ord
+     /\ err' = (IF st.ok THEN err ELSE opname)
+     /\ last' = rec
 
 \* refine_time(e) / refine_space(e)
 Bisect(e, ax) ==
@@ -161,9 +168,7 @@ Bisect(e, ax) ==
 BisectBoth(e) ==
   /\ "both" \in Ops /\ err = "none"
   /\ e.lt < MaxL /\ e.lx < MaxL
-  /\ LET st1 == RefAx(St0, e, 0)
-         st2 == RefList(st1, ChildSeq(e, 0), 1)
-     IN Finish(st2, "refine", [op |-> "both", e |-> e])
+  /\ Finish(RefList(RefAx(St0, e, 0), ChildSeq(e, 0), 1), "refine", [op |-> "both", e |-> e])
 
 AllBelow(ax) == \A e \in Leaves : Lvl(e, ax) < MaxL
 
@@ -171,9 +176,8 @@ AllBelow(ax) == \A e \in Leaves : Lvl(e, ax) < MaxL
 UniformRefine ==
   /\ "uniform" \in Ops /\ err = "none"
   /\ AllBelow(0) /\ AllBelow(1)
-  /\ LET st1 == RefList(St0, Stable(order, 0), 0)
-         st2 == RefList(st1, Stable(st1.ord, 1), 1)
-     IN Finish(st2, "uniform_refine", [op |-> "uniform"])
+  /\ Finish(Let(RefList(St0, Stable(order, 0), 0), LAMBDA st1 : RefList(st1, Stable(st1.ord, 1), 1)),
+            "uniform_refine", [op |-> "uniform"])
 
 \* uniform_refine_space(): as written the leaves are processed in insertion order
 UniformRefineSpace ==
@@ -201,11 +205,10 @@ DorflerAniso(Mt, Ms) ==
   /\ Mt \cup Ms # {}
   /\ \A e \in Mt : e.lt < MaxL
   /\ \A e \in Ms : e.lx < MaxL
-  /\ LET st1 == RefList(St0, Stable(SubSeqOf(order, Mt), 0), 0)
-         ms  == KidsOrSelf(Rng(st1.ord), SubSeqOf(order, Ms))
-         st2 == RefList(st1, Stable(ms, 1), 1)
-         decl == DorflerDecl(Leaves, Mt, Ms)
-     IN /\ order' = st2.ord
+  /\ \E st2 \in {Let(RefList(St0, Stable(SubSeqOf(order, Mt), 0), 0), LAMBDA st1 :
+                     RefList(st1, Stable(KidsOrSelf(Rng(st1.ord), SubSeqOf(order, Ms)), 1), 1))},
+        decl \in {DorflerDecl(Leaves, Mt, Ms)} :
+        /\ order' = st2.ord
         /\ err' = (IF ~st2.ok THEN "dorfler_refine_anisotropic"
                    ELSE IF Rng(st2.ord) # decl THEN "dorfler:not-declarative" ELSE err)
         /\ last' = [op |-> "dorfler_aniso", mt |-> Mt, ms |-> Ms]
@@ -221,11 +224,9 @@ DorflerIso(M) ==
   \* equally large indicators are visited in an order that depends on argsort's internals:
   \* any order of the marked elements, then Python's stable sort by level
   /\ \E mseq \in SetToSeqs(M) :
-     LET mt  == Stable(mseq, 0)
-         st1 == RefList(St0, mt, 0)
-         st2 == RefList(st1, Stable(KidsOf(mt), 1), 1)
-         decl == DorflerDecl(Leaves, M, M)
-     IN /\ order' = st2.ord
+     \E st2 \in {RefList(RefList(St0, Stable(mseq, 0), 0), Stable(KidsOf(Stable(mseq, 0)), 1), 1)},
+        decl \in {DorflerDecl(Leaves, M, M)} :
+        /\ order' = st2.ord
         /\ err' = (IF ~st2.ok THEN "dorfler_refine_isotropic"
                    ELSE IF Rng(st2.ord) # decl THEN "dorfler:not-declarative" ELSE err)
         /\ last' = [op |-> "dorfler_iso", m |-> M]
@@ -233,18 +234,19 @@ DorflerIso(M) ==
 \* "independent of the processing order of equally ranked elements": all outcomes of processing
 \* a set in *any* order compatible with ascending level (set-valued; only for tiny configurations)
 RECURSIVE ProcAny(_, _, _)
-ProcAny(st, Todo, ax) ==
+ProcAny(st0, Todo, ax) == Let(st0, LAMBDA st :
   IF Todo = {} \/ ~st.ok THEN {st}
   ELSE LET cand == {e \in Todo : \A f \in Todo : Lvl(e, ax) <= Lvl(f, ax)}
-       IN UNION {ProcAny(RefAx(st, e, ax), Todo \ {e}, ax) : e \in cand}
+       IN UNION {ProcAny(RefAx(st, e, ax), Todo \ {e}, ax) : e \in cand})
 DorflerAnyOrder ==
   Expand =>
-  \A Mt \in SUBSET Leaves, Ms \in SUBSET Leaves :
-     (Cardinality(Mt) + Cardinality(Ms) <= 3 /\ (\A e \in Mt : e.lt < MaxL) /\ (\A e \in Ms : e.lx < MaxL)) =>
+  \A Mt \in SubsetsUpTo(Leaves, 3) : \A Ms \in SubsetsUpTo(Leaves, 3 - Cardinality(Mt)) :
+     ((\A e \in Mt : e.lt < MaxL) /\ (\A e \in Ms : e.lx < MaxL)) =>
         \A r1 \in ProcAny(St0, Mt, 0) :
            /\ r1.ok
-           /\ LET ms == UNION {IF e \in Rng(r1.ord) THEN {e} ELSE Children(e, 0) : e \in Ms} IN
-              \A r2 \in ProcAny(r1, ms, 1) : r2.ok /\ Rng(r2.ord) = DorflerDecl(Leaves, Mt, Ms)
+           /\ \A ms \in {UNION {IF e \in Rng(r1.ord) THEN {e} ELSE Children(e, 0) : e \in Ms}},
+                 decl \in {DorflerDecl(Leaves, Mt, Ms)} :
+              \A r2 \in ProcAny(r1, ms, 1) : r2.ok /\ Rng(r2.ord) = decl
 
 \* refine_grading(sigma = P/2, K = 4): integer form of the two marking tests
 \*   h_t/K >= h_x^sigma   <=>  2*lt <= CT + P*lx      (mark for time)
@@ -254,28 +256,25 @@ MarkS(e) == ~MarkT(e) /\ P * e.lx - 2 * e.lt <= CS
 InWindow(e) == ~MarkT(e) /\ ~MarkS(e)
 
 RECURSIVE GradeSpace(_, _)
-GradeSpace(st, list) ==      \* the space loop with its `assert not elem.children` (mesh.py:440)
+GradeSpace(st0, list) == Let(st0, LAMBDA st :     \* the space loop with its `assert not elem.children` (mesh.py:440)
   IF list = <<>> \/ ~st.ok THEN st
   ELSE IF Head(list) \notin Rng(st.ord)
        THEN (IF GradeSkip THEN GradeSpace(st, Tail(list)) ELSE [st EXCEPT !.ok = FALSE])
-       ELSE GradeSpace(RefAx(st, Head(list), 1), Tail(list))
+       ELSE GradeSpace(RefAx(st, Head(list), 1), Tail(list)))
 
-GradeSweepSt(st) ==
-  LET mt == SelectSeq(st.ord, MarkT)
-      ms == SelectSeq(st.ord, MarkS)
-      st1 == RefList(st, Stable(mt, 0), 0)
-  IN GradeSpace(st1, Stable(ms, 1))
+GradeSweepSt(st0) == Let(st0, LAMBDA st :
+  GradeSpace(RefList(st, Stable(SelectSeq(st.ord, MarkT), 0), 0), Stable(SelectSeq(st.ord, MarkS), 1)))
 NeedsGrade(S) == \E e \in S : ~InWindow(e)
 GradeRoom(S) == \A e \in S : (MarkT(e) => e.lt < MaxL) /\ (MarkS(e) => e.lx < MaxL)
 RECURSIVE GradeLoop(_, _)
-GradeLoop(st, fuel) ==       \* the while loop; fuel only bounds the model's recursion
+GradeLoop(st0, fuel) == Let(st0, LAMBDA st :      \* the while loop; fuel only bounds the model's recursion
   IF ~st.ok \/ ~NeedsGrade(Rng(st.ord)) THEN [st |-> st, done |-> TRUE]
   ELSE IF fuel = 0 \/ ~GradeRoom(Rng(st.ord)) THEN [st |-> st, done |-> FALSE]
-  ELSE GradeLoop(GradeSweepSt(st), fuel - 1)
+  ELSE GradeLoop(GradeSweepSt(st), fuel - 1))
 
 Grade ==
   /\ "grade" \in Ops /\ err = "none"
-  /\ LET r == GradeLoop(St0, 4 * MaxL + 4) IN
+  /\ \E r \in {GradeLoop(St0, 4 * MaxL + 4)} :
      /\ r.done           \* only taken where the graded mesh fits below MaxL
      /\ order' = r.st.ord
      /\ err' = (IF r.st.ok THEN err ELSE "refine_grading")
@@ -287,9 +286,10 @@ Step ==
   \/ UniformRefine
   \/ UniformRefineSpace
   \/ Grade
-  \/ \E Mt \in SUBSET Leaves, Ms \in SUBSET Leaves :
-        Cardinality(Mt) + Cardinality(Ms) <= 3 /\ DorflerAniso(Mt, Ms)
-  \/ \E M \in SUBSET Leaves : Cardinality(M) <= 2 /\ DorflerIso(M)
+  \/ /\ "dorfler" \in Ops
+     /\ \/ \E Mt \in SubsetsUpTo(Leaves, 3) : \E Ms \in SubsetsUpTo(Leaves, 3 - Cardinality(Mt)) :
+              DorflerAniso(Mt, Ms)
+        \/ \E M \in SubsetsUpTo(Leaves, 2) : DorflerIso(M)
 Next == Expand /\ Step
 
 Spec == Init /\ [][Next]_vars
@@ -334,7 +334,7 @@ NoErr == err = "none"
 ClosureAgrees ==
   \A e \in Leaves, ax \in {0, 1} :
      Lvl(e, ax) < MaxL =>
-        LET st == RefAx(St0, e, ax) IN st.ok /\ Rng(st.ord) = Closure(Leaves, {e}, ax)
+        \E st \in {RefAx(St0, e, ax)} : st.ok /\ Rng(st.ord) = Closure(Leaves, {e}, ax)
 
 \* refinement order on meshes
 Inside(a, b) == b.t0 <= a.t0 /\ a.t1 <= b.t1 /\ b.x0 <= a.x0 /\ a.x1 <= b.x1
